@@ -139,6 +139,10 @@ def gen_script(rnd, o, nm, names, ncomp, handlers, dyn, sops, flags):
         elif op == 'raise':
             ops.append(['raiseb'] if rnd.random() < o.get('p_raise_base', 0.0) else ['raise'])
             break
+        elif op == 'exit':
+            # SystemExit / KeyboardInterrupt raised by a handler (a hand-stepped manager is not running: no stop follows)
+            ops.append(rnd.choice([['exit', None], ['exit', 3], ['kbint']]))
+            break
         elif op == 'ret':
             ops.append(['ret', rnd.choice([1, 2, 3, 4, 5, 6, 7, 8, 9, 1000])])     # 1000: the falsy result 0
         elif op == 'addh' and dyn:
@@ -155,6 +159,12 @@ def gen_script(rnd, o, nm, names, ncomp, handlers, dyn, sops, flags):
                     ops.append(['fire', dict(sp)])
                     sp = dict(sp)
                     sp['byname'] = rnd.random() < 0.5
+                elif o.get('never_waits') and [t for t in o.get('timeouts', [None]) if t is not None] and rnd.random() < 0.5:
+                    # a wait by name for an event that never comes: only the timeout ends it
+                    ops.append(['wait', {'name': 'never', 'prio': 0, 'flags': 0, 'ch': None, 'byname': True},
+                                rnd.choice([t for t in o['timeouts'] if t is not None])])
+                    gen = True
+                    continue
                 else:
                     continue
             tmo = rnd.choice(o.get('timeouts', [None]))
